@@ -16,6 +16,14 @@ from nrel.hive.state.vehicle_state.charge_queueing import ChargeQueueing
 from nrel.hive.state.vehicle_state.charging_base import ChargingBase
 from nrel.hive.state.vehicle_state.charging_station import ChargingStation
 from nrel.hive.state.vehicle_state.reserve_base import ReserveBase
+from nrel.hive.state.vehicle_state.dispatch_base import DispatchBase
+from nrel.hive.state.vehicle_state.dispatch_station import DispatchStation
+from nrel.hive.state.vehicle_state.dispatch_trip import DispatchTrip
+from nrel.hive.state.vehicle_state.idle import Idle
+from nrel.hive.state.vehicle_state.out_of_service import OutOfService
+from nrel.hive.state.vehicle_state.repositioning import Repositioning
+from nrel.hive.state.vehicle_state.servicing_trip import ServicingTrip
+from nrel.hive.state.entity_state import entity_state_ops
 
 from .encode import enc_instr, enc_sim
 from .record import Oracle, enc_events, recording
@@ -71,6 +79,68 @@ def random_instruction(w: World, sim, vid: str, rng: random.Random):
     if kind == "oos":
         return I.OutOfServiceInstruction(vid)
     return I.DispatchPoolingTripInstruction(vid, ())
+
+
+def random_state(w: World, sim, vid: str, rng: random.Random):
+    """any activity with any arguments, as a controller-defined instruction could propose it:
+    targets present or missing, co-located or remote; routes from the vehicle, from somewhere
+    else, or empty"""
+    v = sim.vehicles[vid]
+    net = sim.road_network
+
+    def route_to(pos):
+        r = rng.random()
+        if pos is None or r < 0.1:
+            return ()
+        if r < 0.8:
+            return net.route(v.position, pos)
+        other = net.position_from_geoid(rng.choice(w.cells))
+        return net.route(other, pos)            # a route that does not start at the vehicle
+
+    def pick(m):
+        ids = sorted(m.keys())
+        return rng.choice(ids) if ids and rng.random() < 0.93 else "x999"
+
+    charger = rng.choice(sorted(CHARGERS.keys()))
+    kind = rng.choice(["idle", "oos", "repos", "dtrip", "strip", "strip", "dstn", "cstn", "queue", "dbase", "rbase", "cbase"])
+    if isinstance(v.vehicle_state, DispatchTrip) and rng.random() < 0.6:
+        # a vehicle on its way to a request: the begin-trip proposal for that very request, before it has arrived
+        r = sim.requests.get(v.vehicle_state.request_id)
+        if r is not None:
+            return ServicingTrip.build(vid, r, sim.sim_time, net.route(r.position, r.destination_position))
+    if kind == "idle":
+        return Idle.build(vid)
+    if kind == "oos":
+        return OutOfService.build(vid)
+    if kind == "repos":
+        return Repositioning.build(vid, route_to(net.position_from_geoid(rng.choice(w.cells))))
+    if kind == "dtrip":
+        rid = pick(sim.requests)
+        r = sim.requests.get(rid)
+        return DispatchTrip.build(vid, rid, route_to(None if r is None else r.position))
+    if kind == "strip":
+        rid = pick(sim.requests)
+        r = sim.requests.get(rid)
+        if r is None:
+            return Idle.build(vid)
+        rr = rng.random()
+        route = net.route(r.position, r.destination_position) if rr < 0.8 else (net.route(v.position, r.destination_position) if rr < 0.9 else ())
+        return ServicingTrip.build(vid, r, sim.sim_time, route)
+    if kind == "dstn":
+        sid = pick(sim.stations)
+        st = sim.stations.get(sid)
+        return DispatchStation.build(vid, sid, route_to(None if st is None else st.position), charger)
+    if kind == "cstn":
+        return ChargingStation.build(vid, pick(sim.stations), charger)
+    if kind == "queue":
+        return ChargeQueueing.build(vid, pick(sim.stations), charger, sim.sim_time)
+    if kind == "dbase":
+        bid = pick(sim.bases)
+        b = sim.bases.get(bid)
+        return DispatchBase.build(vid, bid, route_to(None if b is None else b.position))
+    if kind == "rbase":
+        return ReserveBase.build(vid, pick(sim.bases))
+    return ChargingBase.build(vid, pick(sim.bases), charger)
 
 
 def controller(w: World, sim, rng: random.Random, p_instr: float) -> List[Any]:
@@ -156,6 +226,41 @@ def run_history(w: World, rng: random.Random, steps: int, *, p_instr: float = 0.
                         "skip": oracle.boundary_hit,
                     }
                 )
+                env.reporter.reports = []
+            # --- transition probe: exit + enter of an arbitrary activity, result discarded ---
+            if sim.vehicles and rng.random() < p_probe * 0.8:
+                from .encode import enc_act
+
+                pv = rng.choice(sorted(sim.vehicles.keys()))
+                travelling = [x for x in sorted(sim.vehicles.keys()) if isinstance(sim.vehicles[x].vehicle_state, DispatchTrip)]
+                if travelling and rng.random() < 0.4:
+                    pv = rng.choice(travelling)
+                oracle.reset()
+                nxt = None
+                outcome = "raise"
+                t_post = None
+                try:
+                    nxt = random_state(w, sim, pv, rng)
+                    err, t_post = entity_state_ops.transition_previous_to_next(sim, env, sim.vehicles[pv].vehicle_state, nxt)
+                    outcome = "error" if err is not None else ("rejected" if t_post is None else "ok")
+                except Exception:
+                    outcome = "raise"
+                if nxt is not None:
+                    recs.append(
+                        {
+                            "op": "transition",
+                            "probe": True,
+                            "id": f"{tag}:{k}:transition",
+                            "pre": enc_sim(n, sim),
+                            "veh": n.get("veh", pv),
+                            "next": enc_act(n, nxt),
+                            "outcome": outcome,
+                            "post": enc_sim(n, t_post) if outcome == "ok" else None,
+                            "events": enc_events(n, env.reporter.reports),
+                            "oracle": oracle.encode(n),
+                            "skip": oracle.boundary_hit,
+                        }
+                    )
                 env.reporter.reports = []
             # --- instruction phase ---
             instrs = controller(w, sim, rng, p_instr)
